@@ -73,6 +73,14 @@ CHECKS.update({
     ),
 })
 
+CHECKS.update({
+    "C11": dict(
+        text="every string <=7/9 over {space tab = \" ' a b /} as a whole attribute area and behind a tag name, in XML/HTML mode with/without duplicate checks (8 modes); every ASCII byte pair in blank-sensitive positions of five templates; every ordered list of <=4 attributes from a pool of 6 well-formed + 6 faulty items; the real iterator's item sequence (key bytes, value bytes, error variant + positions, then None three more times) must equal that of a reference grammar written from the AttrError documentation (error and recovery positions)",
+        note="two pinned expectations (first non-blank byte belongs to the key; a key is 'seen' once accepted); defect F2 found by this check was repaired (fix: commit 4120184)",
+        technique=TECH.format(what="attribute-area strings x 8 iteration modes", oracle="a reference attribute grammar"),
+    ),
+})
+
 PENDING_REASON = "check not built yet (work in progress; see DESIGN.md §9 for the order of work)"
 
 ALL = ["C%02d" % i for i in range(1, 21)]
